@@ -677,7 +677,11 @@ func (i *IRCServer) send(reply *Replyctx, msg *irc.Message) *robust.Message {
 			Id:    reply.msgid,
 			Reply: reply.replyid,
 		},
-		Data:           string(msg.Bytes()),
+		// Bytes() truncates the line to 510 bytes, possibly in the middle
+		// of a UTF-8 sequence. Drop the partial sequence: JSON-encoding
+		// replaces each of its bytes with U+FFFD (3 bytes), which makes the
+		// line exceed the limit again.
+		Data:           strings.ToValidUTF8(string(msg.Bytes()), ""),
 		InterestingFor: make(map[uint64]bool),
 	}
 
